@@ -1544,6 +1544,15 @@ impl<'a> Model<'a> {
                 } else {
                     result
                 };
+                // What the cell stores is what its dependents must see, also those that are
+                // evaluated in the same pass before the value is read back from the cell
+                let result = match result {
+                    CalcResult::EmptyCell | CalcResult::EmptyArg => CalcResult::Number(0.0),
+                    CalcResult::Number(f) if !f.is_finite() => {
+                        CalcResult::new_error(Error::NUM, cell_reference, String::new())
+                    }
+                    other => other,
+                };
 
                 if let Err(e) = self.set_cells_with_result(cell_reference, &original_cell, &result)
                 {
